@@ -112,7 +112,7 @@ Member(v, k, assert) ==
   CASE v[1] = "null" -> IF assert THEN <<"e">> ELSE <<"v", Null>>
     [] v[1] = "map" -> <<"v", IF HasKey(v[2], k) THEN DropTyped(v[2][k]) ELSE Null>>
     [] v[1] = "struct" -> IF HasKey(v[2], k) THEN <<"v", DropTyped(v[2][k])>>
-                          ELSE IF k \in v[3] THEN <<"u">> ELSE <<"e">>    \* unexported / missing field
+                          ELSE IF \E j \in 1..Len(v[3]) : v[3][j] = k THEN <<"u">> ELSE <<"e">>    \* unexported / missing field
     [] OTHER -> <<"u">>
 
 \* a callee must be written as a name or a dotted path
